@@ -140,6 +140,17 @@ theorem act_el (s : State) (a : Act) : EL s (act s a).1 := by
   | oob f => show EL s (setReady s f _ _ _).1; unfold setReady; split <;> first | exact EL.refl s | exact el_of_same rfl (fun _ => ⟨rfl, rfl⟩)
   | arm k => exact EL.refl s
   | post k => exact EL.refl s
+  | cond f c =>
+    show EL s (condFd s f c).1
+    unfold condFd
+    repeat' split
+    all_goals first | exact EL.refl s | exact el_of_same rfl (fun _ => ⟨rfl, rfl⟩)
+  | enableF e =>
+    show EL s (restoreOpen s (enableEv (refuseAdd s (s.evs e).fd) e).1)
+    have c1 : EL s (refuseAdd s (s.evs e).fd) := el_of_same rfl (fun _ => ⟨rfl, rfl⟩)
+    have c2 : EL (enableEv (refuseAdd s (s.evs e).fd) e).1 (restoreOpen s (enableEv (refuseAdd s (s.evs e).fd) e).1) :=
+      el_of_same rfl (fun _ => ⟨rfl, rfl⟩)
+    exact (c1.trans (enableEv_el _ e)).trans c2
 
 theorem runScript_el (sc : List Act) : ∀ s : State, EL s (runScript s sc) := by
   induction sc with
